@@ -239,9 +239,42 @@ def race(cbmc, backends, timeout):
             except Exception: pass
             if p.poll() is None: p.communicate()
 
+def normalized_ir(path):
+    out = []
+    for ln in open(path):
+        if ln.startswith('source_filename') or ln.startswith('; ModuleID') or ln.startswith('!') or ln.startswith('target '): continue
+        out.append(ln)
+    return out
+
+def run_ir_equal(job, tu, scratch):
+    """C15 flavour obligation: the proof unit compiled against include/hfsm2/machine.hpp and against development/hfsm2/machine_dev.hpp
+    must give the same LLVM IR, function by function (exact; no solver involved)"""
+    r = {'job': job['id'], 'obligations': [], 'error': None, 'times': {'cbmc': 0.0}, 'cmd': 'clang++ -emit-llvm (both flavours) + textual comparison of the IR'}
+    other = TU(scratch, job['tu'], job.get('defs'), job.get('sroa', True), None, 'dev', job.get('hfsm_assert', True))
+    other.build()
+    if other.error: r['error'] = 'development flavour does not build: ' + other.error[-800:]; return r
+    a = normalized_ir(tu.dir + '/t0.ll'); b = normalized_ir(other.dir + '/t0.ll')
+    same = a == b
+    detail = ''
+    if not same:
+        fa = {}; cur = None
+        for src, store in ((a, 0), (b, 1)):
+            cur = None
+            for ln in src:
+                m = re.match(r'^define [^@]*@"?([^"(]+)"?\(', ln)
+                if m: cur = m.group(1)
+                if cur: fa.setdefault(cur, [[], []])[store].append(ln)
+        diff = [k for k, v in fa.items() if v[0] != v[1]]
+        detail = ', '.join(list(demangle(diff[:5]).values()))[:600]
+    r['obligations'].append({'name': 'ir_equal', 'desc': 'C15: single header and development headers lower to identical code for this proof unit' + ('' if same else ' [differs in: %s]' % detail),
+                             'status': 'SUCCESS' if same else 'FAILURE', 'props': ['C15'], 'function': job['tu'], 'line': ''})
+    return r
+
 def run_job(job, tu, safety, scratch, want_trace=False, only_props=None):
     """returns dict(result list, times, error)"""
     r = {'job': job['id'], 'obligations': [], 'error': None, 'times': {}, 'cmd': ''}
+    if job.get('mode') == 'ir_equal':
+        return run_ir_equal(job, tu, scratch)
     try:
         entry = job['entry']
         flags = ['--no-standard-checks', '--drop-unused-functions', '--object-bits', str(job.get('objbits', 12)),
@@ -305,6 +338,7 @@ def run_job(job, tu, safety, scratch, want_trace=False, only_props=None):
         for res in results:
             desc = res.get('description', ''); name = res.get('property', '')
             props_ = classify_label(desc, name, job['props'][0] if job.get('mode') == 'dfcc' else None)
+            if job.get('count_all_as') and not set(props_) & {'CANARY', 'UNWIND'}: props_ = props_ + [job['count_all_as']]   # C15: the same contracts under another configuration / flavour
             if desc.startswith('C11: HFSM2_ASSERT') and job.get('assert_props'): props_ = props_ + list(job['assert_props'])   # the library's own assertions also decide these properties in this job
             ob = {'name': name, 'desc': desc, 'status': res.get('status'), 'props': props_,
                   'function': (res.get('sourceLocation') or {}).get('function', ''), 'line': (res.get('sourceLocation') or {}).get('line', '')}
@@ -371,7 +405,7 @@ def main(argv):
     prop = a.prop
     seed = int(os.environ.get('VERIF_SEED', '1') or 1)
     t_start = time.time()
-    jobs = [j for j in load_jobs() if prop in j['props'] and (a.tier == 'thorough' or (j.get('tier', 'quick') == 'quick' and (not j.get('quick_for') or prop in j['quick_for'])))]
+    jobs = [j for j in load_jobs() if prop in j['props'] and (a.tier == 'thorough' or (j.get('tier', 'quick') == 'quick' and (j.get('quick_for') is None or prop in j['quick_for'])))]
     if a.all_props: jobs = [j for j in load_jobs() if a.tier == 'thorough' or j.get('tier', 'quick') == 'quick']
     if a.jobs: jobs = [j for j in jobs if re.search(a.jobs, j['id'])]
     if a.list:
@@ -473,12 +507,14 @@ def run_check(prop, a, jobs, findings, scratch, seed, t_start):
         for j, ob in violations:
             print('FAILED: "%s" in job %s' % (ob['desc'], j['id']))
         # re-run the failing jobs with traces and replay natively (the first few distinct ones)
-        seen = set()
+        seen = set(); traced = {}
         for j, ob in violations:
             if (j['id'], ob['desc']) in seen: continue
             seen.add((j['id'], ob['desc']))
             if len(seen) > 8: break
-            rr = run_job(j, j['_tu'], safety or j.get('safety_always', False), scratch, want_trace=True)
+            if j['id'] not in traced:      # one traced re-run per failing job serves all its failed obligations
+                traced[j['id']] = run_job(j, j['_tu'], safety or j.get('safety_always', False), scratch, want_trace=True)
+            rr = traced[j['id']]
             ob2 = next((o for o in rr['obligations'] if o['name'] == ob['name'] and o['status'] == 'FAILURE'), None)
             rdir = os.path.join(VERIF, 'replays', prop); os.makedirs(rdir, exist_ok=True)
             rid = re.sub(r'[^A-Za-z0-9_.-]', '_', '%s__%s' % (j['id'], ob['name']))[:150]
